@@ -7,6 +7,7 @@ TRACE_TLA = os.path.join(SPEC, "Trace_AtomicMap.tla")
 
 S = {"k": "snapshot"}
 U = {"k": "update"}
+A = {"k": "abort"}
 
 
 def C(h):
@@ -32,6 +33,7 @@ SCENARIOS = [
     [[U, S, R(1)], [U, S, R(1)], [S, C(1), D(1), R(2), U]],
     [[S, I(1), C(1), D(1), R(2), U, R(2)], [U, U], [S, S, S, R(1), R(2), R(3)]],
     [[U, U, U], [U, U, U]],
+    [[A, U, S, R(1)], [U, A, U], [S, R(1), U]],          # updaters dying with the lock held: the others carry on
 ]
 
 
